@@ -231,6 +231,7 @@ def run(rep, tier):
         rule_parse_directive(rep, idx)
     except AnalysisBroken as e:
         rep.undecided('RB', 'parse-directive', 'cannot interpret: %s' % e, 'hexasm.hpp hexasm::Parser::parseDirective')
+
     total_classes = 0
     values_covered = 0
     for m in spec_isa.IMMEDIATE_MNEMONICS:
@@ -253,6 +254,11 @@ def run(rep, tier):
                         ('%s %s (%d bytes): ' % (m, cls, n)) + detail)
         main = [c for c in classes]
         total_classes += len(classes)
+        if m == 'LDAC':
+            try:
+                rule_layout_accepts(rep, idx, [(lo, hi) for lo, hi, _, _ in classes if lo != hi or tier != 'thorough'])
+            except AnalysisBroken as e:
+                rep.undecided('RC', 'layout', 'cannot interpret: %s' % e, 'hexasm.hpp hexasm::CodeGen::resolveLabels')
         # coverage of the int range by the partition (singletons of the thorough tier overlap)
         ivs = sorted({(lo, hi) for lo, hi, _, _ in classes if True})
         cur = INT_MIN
@@ -317,6 +323,41 @@ def rule_parse_directive(rep, idx):
             rep.add('RB', key, ok, where, 'InstrImm(%s, %r)' % (m, v) if ok else
                     'builds %r with value %r, token %r (expected an InstrImm %s with a value in [%d,%d])%s' % (
                         getattr(d, 'cls', d), v, tk, m, want[0], want[1], '; UB %s' % B.I.ub if B.I.ub else ''))
+
+
+def rule_layout_accepts(rep, idx, given):
+    """RC: label resolution / layout (the CodeGen constructor path) accepts an immediate of every length class."""
+    rep.rule('RC', 'the assembler accepts every 32-bit immediate after parsing: laying out a program that consists of one immediate instruction '
+             '(resolveLabels and whatever checks it runs) raises no error and no undefined behaviour for any operand class of 1..8 nibbles, '
+             'positive and negative (the value classes of the sizing partition)', floor=16)
+    from . import c05
+    f = idx.func('hexasm::CodeGen::resolveLabels')
+    where = pos(f.node) + ' hexasm::CodeGen::resolveLabels'
+    classes = sorted(set(given))
+    for lo, hi in classes:
+        todo = [(lo, hi)]
+        budget = 12
+        while todo:
+            a, b = todo.pop(0)
+            key = 'LDAC [%d,%d]' % (a, b)
+            B = c05.Builder(idx)
+            try:
+                B.layout([B.imm('LDAC', IV(32, True, a, b, None, 'input'))])
+            except Thrown as e:
+                rep.add('RC', key, False, where, 'operands in [%d,%d] are rejected after parsing (%s): no bytes are emitted for values that fit in 32 bits' % (a, b, e.what))
+                continue
+            except NeedSplit as e:
+                budget -= 1
+                if a == b or budget < 0:
+                    rep.undecided('RC', key, 'layout not uniform on the class: %s' % e, where)
+                    continue
+                mid = (a + b) // 2
+                todo[:0] = [(a, mid), (mid + 1, b)]
+                continue
+            except AnalysisBroken as e:
+                rep.undecided('RC', key, 'layout not interpreted: %s' % e, where)
+                continue
+            rep.add('RC', key, not B.I.ub, where, 'accepted' if not B.I.ub else 'undefined behaviour while laying out operands in [%d,%d]: %s' % (a, b, B.I.ub[:2]), nontrivial=False)
 
 
 def rule_parse(rep, idx):
